@@ -1,8 +1,9 @@
 use crate::engine::PropDef;
 
+pub mod c10;
 pub mod c19;
 pub mod c20;
 
 pub fn all() -> Vec<PropDef> {
-    vec![c19::def(), c20::def()]
+    vec![c10::def(), c19::def(), c20::def()]
 }
